@@ -15,7 +15,7 @@ regular expressions over the (regular) C text.  Nothing is compiled or imported.
 * searchPathSubdir      the directory appended to GOBJECT_INTROSPECTION_LIBDIR
 * envVar                the environment variable read by init_globals
 * selfName/selfVersion  GIREPOSITORY_TYPELIB_NAME / _VERSION (the special-cased namespace)
-* repoShape             the order of the checks of require_internal / get_registered_status / the lazy->eager
+* repoShape             the order of the checks of require_internal / get_registered_status / load_typelib / the lazy->eager
                         transition of register_internal that the model mirrors, as tokens; a `decide` theorem compares it with the expected list.
 A changed literal makes `C17_source_shape` fail to re-check."""
 import os
@@ -82,10 +82,11 @@ def main():
              ('return-registered', r'if \(typelib\)\s*return typelib;'),
              ('conflict', r'if \(version_conflict != NULL\)'),
              ('explicit', r'find_namespace_version \(namespace, version,\s*search_path, &path\)'),
-             ('latest', r'find_namespace_latest \(namespace, search_path,'),
+             ('tmp-version-requested', r'tmp_version = g_strdup \(version\);'),
+             ('latest', r'find_namespace_latest \(namespace, search_path,\s*&tmp_version, &path\)'),
              ('notfound', r'if \(mfile == NULL\)'),
              ('ns-check', r'if \(strcmp \(typelib_namespace, namespace\) != 0\)'),
-             ('version-check', r'if \(version != NULL && strcmp \(typelib_version, version\) != 0\)'),
+             ('version-check-name', r'if \(strcmp \(typelib_version, tmp_version\) != 0\)'),
              ('register', r'register_internal \(repository, path, allow_lazy,')]
     pos = 0
     for tok, pat in order:
@@ -118,6 +119,20 @@ def main():
                                body_of(src, 'find_namespace_latest'), 'sort call'))
     shape.append('dep-require:' + one(r'g_irepository_require \(repository, dependency_namespace, (\w+),\s*(\w+), error\)',
                                       dep_fn, 'dependency require')[0])
+
+    # g_irepository_load_typelib: registered -> namespace; conflict -> error; else register
+    ld = body_of(src, 'g_irepository_load_typelib')
+    pos = 0
+    toks = []
+    for tok, pat in [('status', r'if \(get_registered_status \(repository, namespace, nsversion, allow_lazy,\s*'
+                                r'&is_lazy, &version_conflict\)\)\s*return namespace;'),
+                     ('conflict', r'if \(version_conflict != NULL\)\s*\{\s*g_set_error \(error, G_IREPOSITORY_ERROR,\s*'
+                                  r'G_IREPOSITORY_ERROR_NAMESPACE_VERSION_CONFLICT,'),
+                     ('register', r'return register_internal \(repository, "[^"]*",\s*allow_lazy, typelib, error\);')]:
+        m = re.compile(pat).search(ld, pos)
+        toks.append(tok if m else 'MISSING:' + tok)
+        pos = m.end() if m else pos
+    shape.append('load:' + ','.join(toks))
 
     # register_internal: the lazy -> eager transition (the key found in the lazy table is taken out
     # WITHOUT running the key destructor and re-used for the table of loaded typelibs)
